@@ -132,26 +132,48 @@ package memdb
 //@   requires !sameblock(i.p.nodeData, i.p.prevNode[:])
 //@   ensures [C02,C14:facing-forward-after-a-forward-move] (old(i.err) == nil && i.err == nil) ==> i.forward
 //@   guarantees [C14:seek-lands-on-a-key-not-smaller-than-the-target] result ==> mcmp(bytes(i.key), bytes(key)) >= 0
+//@   at before call (*DB).findGE#1
+//@     assert [C02,C14:seek-searches-the-target-raised-to-the-start-of-the-range] ((i.slice != nil && !isnil(i.slice.Start) && mcmp(bytes(old(key)), bytes(i.slice.Start)) < 0) ==> sameslice(arg0, i.slice.Start)) && (!(i.slice != nil && !isnil(i.slice.Start) && mcmp(bytes(old(key)), bytes(i.slice.Start)) < 0) ==> sameslice(arg0, old(key)))
+//@   at before call (*dbIter).fill#1
+//@     assert [C02,C14:a-forward-move-is-checked-against-the-limit] arg1
 //@ func (*dbIter).First
 //@   props C14 C02
 //@   safety off
 //@   requires !sameblock(i.p.nodeData, i.p.prevNode[:])
 //@   ensures [C02,C14:facing-forward-after-a-forward-move] (old(i.err) == nil && i.err == nil) ==> i.forward
+//@   at before call (*DB).findGE#1
+//@     assert [C02,C14:first-searches-the-start-of-the-range] sameslice(arg0, i.slice.Start)
+//@   at before call (*dbIter).fill#1
+//@     assert [C02,C14:a-forward-move-is-checked-against-the-limit] arg1
+//@     assert [C02,C14:first-without-a-start-is-the-head-of-the-bottom-list] (i.slice == nil || isnil(i.slice.Start)) ==> i.node == i.p.nodeData[4]
 //@ func (*dbIter).Next
 //@   props C14 C02
 //@   safety off
 //@   requires !sameblock(i.p.nodeData, i.p.prevNode[:])
 //@   ensures [C02,C14:facing-forward-after-a-forward-move] (old(i.err) == nil && i.err == nil) ==> i.forward
 //@   ensures [C02,C14:next-stays-off-the-forward-end] (old(i.err) == nil && i.err == nil && old(i.node) == 0 && old(i.forward)) ==> (!result && i.node == 0)
+//@   at before call (*dbIter).fill#1
+//@     assert [C02,C14:a-forward-move-is-checked-against-the-limit] arg1
+//@     assert [C02,C14:next-moves-to-the-successor-in-the-bottom-list] i.node == i.p.nodeData[old(i.node)+4]
 //@ func (*dbIter).Last
 //@   props C14 C02
 //@   safety off
 //@   ensures [C02,C14:facing-backward-after-a-backward-move] (old(i.err) == nil && i.err == nil) ==> !i.forward
+//@   at before call (*DB).findLT#1
+//@     assert [C02,C14:last-searches-below-the-limit-of-the-range] sameslice(arg0, i.slice.Limit)
+//@   at before call (*DB).findLast#1
+//@     assert [C02,C14:last-without-a-limit-is-the-end-of-the-list] i.slice == nil || isnil(i.slice.Limit)
+//@   at before call (*dbIter).fill#1
+//@     assert [C02,C14:a-backward-move-is-checked-against-the-start] arg0
 //@ func (*dbIter).Prev
 //@   props C14 C02
 //@   safety off
 //@   ensures [C02,C14:facing-backward-after-a-backward-move] (old(i.err) == nil && i.err == nil) ==> !i.forward
 //@   ensures [C02,C14:prev-stays-off-the-backward-end] (old(i.err) == nil && i.err == nil && old(i.node) == 0 && !old(i.forward)) ==> (!result && i.node == 0)
+//@   at before call (*DB).findLT#1
+//@     assert [C02,C14:prev-searches-below-the-current-key] sameslice(arg0, old(i.key))
+//@   at before call (*dbIter).fill#1
+//@     assert [C02,C14:a-backward-move-is-checked-against-the-start] arg0
 // (C14, readers concurrent with the writer: the entry under the cursor is read out of the arena while the read lock
 // is held - a writer that overwrites the key in between would otherwise hand the reader a key and a value length that do
 // not belong together, i.e. a pair that was never stored)
@@ -161,6 +183,9 @@ package memdb
 //@   requires [C14:the-entry-is-read-under-the-read-lock] rheld(i.p.mu) >= 1
 //@   ensures [C02,C14:positioned-means-the-nodes-own-key] result ==> (i.node == old(i.node) && i.node != 0 && sameslice(i.key, i.p.kvData[i.p.nodeData[i.node] : i.p.nodeData[i.node] + i.p.nodeData[i.node+1]]))
 //@   ensures [C02,C14:off-the-end-means-no-key] !result ==> (i.node == 0 && isnil(i.key) && isnil(i.value))
+//@   ensures [C02,C14:a-positioned-entry-lies-below-the-limit] (result && checkLimit && i.slice != nil && !isnil(i.slice.Limit)) ==> mcmp(bytes(i.key), bytes(i.slice.Limit)) < 0
+//@   ensures [C02,C14:a-positioned-entry-lies-at-or-above-the-start] (result && checkStart && i.slice != nil && !isnil(i.slice.Start)) ==> mcmp(bytes(i.key), bytes(i.slice.Start)) >= 0
+//@   ensures [C02,C14:the-value-is-the-nodes-own] result ==> sameslice(i.value, i.p.kvData[i.p.nodeData[i.node] + i.p.nodeData[i.node+1] : i.p.nodeData[i.node] + i.p.nodeData[i.node+1] + i.p.nodeData[i.node+2]])
 //@   modifies i.node, i.key, i.value
 
 // Reset leaves an empty table with honest counters (it is reused through the pool).
